@@ -416,6 +416,47 @@ pub fn mut_oracle<E: Engine>(_ctx: &RunCtx, spec: &MutSpec, log: &mut CaseLog) -
     if pm_applied == 0 && !st_changed && !lib_ok {
         return Err("unaltered honest triple rejected".into());
     }
+    // the same triple as a member of a batch next to an honest single-commitment member (so that for aggregates it is the
+    // strictly largest member, and in one order it is not the first): a batch is accepted only if the relation holds for
+    // every member
+    if !holds {
+        let obj = match honest_obj {
+            Some(p) => Some(p.clone()),
+            None => guarded(|| RangeProof::<E::P>::from_bytes(&bytes))?.ok(),
+        };
+        if let Some(obj) = obj {
+            let partner_spec = TripleSpec {
+                cfg: Cfg {
+                    bits: t.cfg.bits,
+                    m: 1,
+                    cap: 1,
+                    ext: t.cfg.ext,
+                },
+                seed: crate::gen::SeedSpec::None,
+                rng: crate::eng::RngSpec::ChaCha(spec.base.bulk ^ 0xba7c),
+                ..spec.base.clone()
+            };
+            let partner = Triple::<E>::build(&partner_spec)?;
+            let pproof = guarded(|| partner.prove())?.map_err(|e| format!("prover refused a valid witness: {:?}", e))?;
+            for first in [false, true] {
+                let (mut ts, sts, proofs) = if first {
+                    (vec![ps.ctx.transcript(), partner.transcript()], vec![st.clone(), partner.st.clone()], vec![obj.clone(), pproof.clone()])
+                } else {
+                    (vec![partner.transcript(), ps.ctx.transcript()], vec![partner.st.clone(), st.clone()], vec![pproof.clone(), obj.clone()])
+                };
+                if guarded(|| E::verify(&mut ts, &sts, &proofs, VerifyAction::VerifyOnly))?.is_ok() {
+                    return Err(format!(
+                        "a batch of an honest member and a triple for which the reference relation does not hold is ACCEPTED (that triple {}; its aggregation {}; proof mutations {:?}, statement mutations {:?})",
+                        if first { "first" } else { "second" },
+                        t.cfg.m,
+                        spec.pmuts,
+                        spec.smuts
+                    ));
+                }
+            }
+            log.extra_evals += 2;
+        }
+    }
     log.label(format!("engine={}", E::NAME));
     log.label(format!("mut:proof-mutations={}", pm_applied));
     log.label(format!("mut:statement-changed={}", st_changed));
@@ -504,6 +545,40 @@ pub fn cheat_oracle<E: Engine>(_ctx: &RunCtx, spec: &CheatSpec, log: &mut CaseLo
     }
     if spec.cheat == Cheat::Honest && !lib_ok {
         return Err("verifier rejects an honest reference-prover proof".into());
+    }
+    // a statement edited by hand so that its promise vector is one entry short (the fields are public), and a prover that
+    // replays the verifier's transcript for it while doing the algebra as if the LAST commitment were the identity (value 0,
+    // blinding 0): that commitment is bound into the transcript, so nothing about the point may go unchecked. The unchanged
+    // verifier does not survive this statement (it panics inside the multiscalar multiplication, which C16 does not cover:
+    // the statement did not come out of the constructors like this), so "not accepted" is all that is asked.
+    if t.cfg.m >= 2 && spec.slot % 3 == 0 {
+        let mut short = rst.clone();
+        short.promises.pop();
+        let mut wz = RefWitness {
+            values: t.values.clone(),
+            blindings: t.blindings.clone(),
+        };
+        let last = t.cfg.m - 1;
+        wz.values[last] = 0;
+        for b in wz.blindings[last].iter_mut() {
+            *b = curve25519_dalek::scalar::Scalar::ZERO;
+        }
+        let forged = ref_prove(&mut t.transcript(), &short, &wz, None, &mut chacha(spec.base.bulk ^ 0xf0), Cheat::Honest, 0);
+        let mut st_short = ps.statement(None)?;
+        st_short.minimum_value_promises.pop();
+        if let Ok(obj) = guarded(|| RangeProof::<E::P>::from_bytes(&forged.encode()))? {
+            for act in [VerifyAction::VerifyOnly, VerifyAction::RecoverAndVerify] {
+                // a panic counts as "not accepted" here (see above)
+                if let Ok(Ok(_)) = guarded(|| E::verify(&mut [ps.ctx.transcript()], &[st_short.clone()], &[obj.clone()], act)) {
+                    return Err(format!(
+                        "verifier ACCEPTS ({:?}) a statement whose last commitment is never checked: promise vector one entry short, proof made as if commitment {} were the identity",
+                        act, last
+                    ));
+                }
+            }
+            log.label("cheat:short-promise-vector");
+            log.extra_evals += 2;
+        }
     }
     log.label(format!("engine={}", E::NAME));
     log.label(format!("cheat:{:?}", spec.cheat));
